@@ -273,7 +273,11 @@ class Fn:
 
     # ----------------------------------------------------------- locations
     def file(self):
-        return self.raw["span"].split(":")[0]
+        f = self.raw["span"].split(":")[0]
+        if f.startswith("/") and self.raw.get("parent") in self.facts.F:
+            # body produced by a foreign macro (e.g. try_stream!): report the enclosing function's file
+            return self.facts.F[self.raw["parent"]].file()
+        return f
 
     def loc(self, bb=None):
         if bb is None:
@@ -366,6 +370,17 @@ class Fn:
             if len(dd) != 1 or dd[0][1] != "assign":
                 continue
             rv = dd[0][2]["rv"]
+            if rv["rv"] == "use" and rv["op"].get("k") == "const" and rv["op"].get("val") and "int" in rv["op"]["val"] \
+                    and not rv["op"].get("path") and dd[0][2]["pl"]["p"] == []:
+                # switch on a literal constant (macro-generated `if false {..}`)
+                cv = rv["op"]["val"]["int"]
+                tgt = t["otherwise"]
+                for val, to in t["targets"]:
+                    if val == cv:
+                        tgt = to
+                self._succ[blk["bb"]] = [tgt]
+                self._pruned = True
+                continue
             if rv["rv"] != "discr" or rv["pl"]["p"]:
                 continue
             kv = self._known_variant_of({"k": "copy", "pl": rv["pl"]}, defs)
